@@ -142,6 +142,10 @@ class WebsocketBuffer:
         self.max_length = max_length
 
     def extend(self, event: Message) -> None:
+        if self.length > self.max_length:
+            # A previous message went over the limit (the connection is being closed
+            # with 1009): nothing further is accepted, whatever its type.
+            raise FrameTooLargeError()
         if self.value is None:
             if isinstance(event, TextMessage):
                 self.value = StringIO()
